@@ -299,6 +299,66 @@ fn run_c12(w: &mut W) {
             }
         }
     }
+    // adjacent byte PAIRS: all 65536 (b1, b2) at neighbouring positions inside otherwise in-class
+    // buffers with three filler styles (carry / borrow / fold slips need a value relation between
+    // two bytes, e.g. 0xFF 0x1F or '-' ',')
+    if w.tier >= Tier::Small {
+        let lens: &[usize] = if w.tier >= Tier::Quick { &[16, 40] } else { &[16] };
+        let poss: &[usize] = if w.tier == Tier::Thorough { &[0, 1, 2, 5, 6, 7, 8, 9, 14, 15, 16, 17, 23, 30, 31, 32, 33, 38] } else if w.tier == Tier::Quick { &[0, 1, 6, 7, 8, 14, 15, 16, 30, 31, 32] } else { &[0, 7, 15] };
+        let mut pidx: u64 = 0;
+        for &sc in ALL_SC.iter() {
+            if matches!(sc, Sc::DispUri(0) | Sc::DispValue(0)) {
+                continue;
+            }
+            let c = sc.class();
+            for &l in lens {
+                for style in 0..3usize {
+                    let base: Vec<u8> = (0..l)
+                        .map(|i| match (style, c) {
+                            (0, _) => class_filler(c, i),
+                            (1, _) => b'a' + (i % 26) as u8,
+                            (_, Class::Name) => [b'-', b'Z', b'x'][i % 3],
+                            (_, _) => [0xFFu8, b'~', 0xA0][i % 3],
+                        })
+                        .collect();
+                    for &q in poss {
+                        if q + 1 >= l {
+                            continue;
+                        }
+                        pidx += 1;
+                        if pidx % n != shard {
+                            continue;
+                        }
+                        let mut b = base.clone();
+                        for b1 in 0..=255u8 {
+                            b[q] = b1;
+                            for b2 in 0..=255u8 {
+                                b[q + 1] = b2;
+                                hv::reset();
+                                if let Some(got) = scan::run(sc, &b) {
+                                    w.st.evaluations += 1;
+                                    let want = scan::expected(c, &b);
+                                    if got != want {
+                                        w.st.violation(Violation {
+                                            property: "C12".into(),
+                                            rule: "scanner_stop_offset_wrong".into(),
+                                            detail: format!("scanner={} (adjacent-pair sweep) stopped at {} want {} input={}", sc.name(), got, want, esc(&b)),
+                                            replay: vec!["scan".into(), sc.idx().to_string(), "1000".into(), hex(&b)],
+                                            signature: None,
+                                        });
+                                    }
+                                } else {
+                                    break;
+                                }
+                            }
+                        }
+                        w.st.count("adjacent_pair_sweeps_65536", 1);
+                        w.st.distinct_case(mix(hash_bytes(sc.idx() as u64 + 900, &base), q as u64));
+                    }
+                }
+            }
+        }
+    }
     // word-at-a-time block function: all 8-byte strings over a boundary alphabet
     let alpha: Vec<u8> = match w.tier {
         Tier::Tiny => vec![0x7F, b'a'],
